@@ -147,7 +147,7 @@ M('C07','reserve-before-set','kvstore/sequence.go','''	err = seq.store.Set(seq.k
 	if err != nil {
 		return err
 	}
-''','seq/reserve-before-handout reserved write in kvstore.Sequence.update')
+''','seq/reserve-before-handout reserved write in kvstore.Sequence.Next')
 M('C07','next-guard-offbyone','kvstore/sequence.go','if seq.next >= seq.reserved {\n\t\tif err','if seq.next > seq.reserved {\n\t\tif err','seq/next-guard kvstore.Sequence.Next')
 M('C07','any-error-is-notfound','kvstore/sequence.go','''	case ierrors.Is(err, ErrKeyNotFound):
 		seq.next = 0
